@@ -35,9 +35,9 @@ def handle : Handler := fun op args =>
       fun (x, y, m1, m2, s1, s2) => cls (fun T => pdfGauss2DE T x y m1 m2 s1 s2)
   | "c07.gauss_q" => withArgs p3 args fun (p, mu, s) =>
       if s < 0 then "err" else if s = 0 then "undef" else      -- sigma = 0: the harness also evaluates CDF_Gauss, which rejects it
-      match invErf TA (2 * p - 1) with
+      match invErfSym TA (2 * p - 1) with
       | .error _ => "err"
-      | .ok _ => if rabs (2 * p - 1 - 1) < 1e-16 then "ok ten" else "ok root"
+      | .ok _ => if rabs (2 * p - 1 - 1) < 1e-16 then "ok ten" else if rabs (2 * p - 1 + 1) < 1e-16 then "ok mten" else "ok root"
   | "c07.binom_pmf" => withArgs (do let t ← pNat; let p ← pRat; let x ← pNat; pure (t, p, x)) args fun (t, p, x) =>
       cls (fun _ => pmfBinomial chooseR t p x)
   | "c07.binom_cdf" => withArgs (do let t ← pNat; let p ← pRat; let x ← pNat; pure (t, p, x)) args fun (t, p, x) =>
@@ -54,8 +54,8 @@ def handle : Handler := fun op args =>
   | "c07.chibar_cdf" => withArgs (do let x ← pRat; let w ← pRats; pure (x, w)) args fun (x, w) => cls (fun T => cdfChiBarE T x w)
   | "c07.exp_pdf" => withArgs p2 args fun (x, m) => cls (fun T => pdfExponential T x m)
   | "c07.exp_cdf" => withArgs p2 args fun (x, m) => cls (fun T => cdfExponential T x m)
-  | "c07.mb_pdf" => withArgs p2 args fun (x, a) => cls (fun T => pdfMB T x a)
-  | "c07.mb_cdf" => withArgs p2 args fun (x, a) => cls (fun T => cdfMB T x a)
+  | "c07.mb_pdf" => withArgs p2 args fun (x, a) => cls (fun T => pdfMBt T x a)
+  | "c07.mb_cdf" => withArgs p2 args fun (x, a) => cls (fun T => cdfMBt T x a)
   | "c07.loglik" => withArgs (do let s ← pRat; let n ← pNat; let b ← pRat; pure (s, n, b)) args fun (s, n, b) =>
       if ¬ (s < 0 ∨ b < 0) ∧ s + b = 0 ∧ n ≠ 0 then "undef" else cls (fun T => logLikelihoodPoissonE T s n b)
   | "c07.lik" => withArgs (do let s ← pRat; let n ← pNat; let b ← pRat; pure (s, n, b)) args fun (s, n, b) =>
